@@ -254,7 +254,9 @@ class _ChangeComputer:
         else:
             collector = codeanalyze.ChangeCollector(self.source)
             last_end = -1
-            for match in self.matches:
+            # the finder reports statement matches in traversal order, which is
+            # not source order (a block's own lists come before nested blocks)
+            for match in sorted(self.matches, key=lambda m: m.get_region()[0]):
                 start, end = match.get_region()
                 if start < last_end:
                     if not self._is_expression():
